@@ -226,3 +226,182 @@ Example C03_nonvacuous :
   repr_div 10 3 MHalfAway (-2) 0 3 0 = Ok (AInexact (-667) (-3) SubOne) /\
   ctx_mul 10 2 MZero 99 0 99 0 = AInexact 98 2 NoOp /\ ctx_mul 10 1 MHalfAway 8 1 5 0 = AExact 4 2.
 Proof. vm_compute. repeat split. Qed.
+
+From Coq Require Import QArith Reals Qreals.
+From Dashu Require Import Float.DivMulModel Float.FilterProof Float.DivMulProof.
+
+(** Round::round_fract as written, WITH its coarse f32 pre-filter: for every pair of coarse tests that only
+    answer when the strict comparison holds it is the exact comparison ... *)
+Theorem C03_round_fract_filtered : forall B coarse_gt coarse_lt,
+  (forall f k, 0 < f -> 0 <= k -> coarse_gt f k = true -> B ^ k < 2 * f) ->
+  (forall f k, 0 < f -> 0 <= k -> coarse_lt f k = true -> 2 * f < B ^ k) ->
+  forall m i fract k, 0 <= k ->
+  round_fract_filtered B coarse_gt coarse_lt m i fract k = round_fract B m i fract k.
+Proof. exact round_fract_filtered_eq. Qed.
+Print Assumptions C03_round_fract_filtered.
+
+(** ... and the two f32 comparisons of the code are such tests: for every monotone rounding [fl] of the last
+    addition / multiplication, all sound log2 bounds of |fract| and of the base, and every precision below 2^24
+    digits (where [precision as f32] is exact).  No unsoundness at large precisions (DESIGN 5.1 #30 refuted). *)
+Theorem C03_round_fract_f32 : forall B, 2 <= B ->
+  forall (fl : Q -> Q) (cvt : Z -> Q) (lb ub : Z -> Q) (b_lb b_ub c999 c1001 : Q),
+  (forall x y, (x <= y)%Q -> (fl x <= fl y)%Q) ->
+  (forall k, 0 <= k < 2 ^ 24 -> (cvt k == inject_Z k)%Q) ->
+  (forall f, 0 < f -> (Q2R (lb f) <= log2R (IZR f) <= Q2R (ub f))%R) ->
+  (Q2R b_lb <= log2R (IZR B) <= Q2R b_ub)%R ->
+  (c999 <= 1)%Q -> (1 <= c1001)%Q ->
+  forall m i fract k, 0 <= k < 2 ^ 24 ->
+  round_fract_f32 fl cvt lb ub b_lb b_ub c999 c1001 B m i fract k = round_fract B m i fract k.
+Proof. exact round_fract_f32_eq. Qed.
+Print Assumptions C03_round_fract_f32.
+
+(** division: exact, or the specification rounding of the exact quotient keeping p or p+1 digits, truthful flag *)
+Theorem C03_div_rounded : forall B, 2 <= B -> forall p m s1 e1 s2 e2,
+  1 <= p -> s2 <> 0 -> dlen B s1 <= p + dlen B s2 ->
+  let k := repr_div_shift B p s1 s2 in
+  0 <= k /\
+  exists a, repr_div B p m s1 e1 s2 e2 = Ok a /\ approx_exp a = e1 - e2 - k /\
+    rounded_quot B p m (Z.sgn s2 * (s1 * B ^ k)) (Z.abs s2) a.
+Proof. exact repr_div_rounded. Qed.
+Print Assumptions C03_div_rounded.
+
+(** what [rounded_quot] means: the documented contract, clause by clause (cross-multiplied by D > 0) *)
+Theorem C03_rounded_quot_is_the_contract : forall B, 2 <= B -> forall p m N D a, 1 <= p -> 0 < D -> rounded_quot B p m N D a ->
+  match a with
+  | AExact q _ => q * D = N /\ N mod D = 0
+  | AInexact r _ f =>
+      r * D <> N /\ N mod D <> 0 /\
+      Z.abs (r * D - N) < D /\
+      B ^ (p - 1) * D <= Z.abs N /\
+      (is_half_mode m = true -> 2 * Z.abs (r * D - N) <= D) /\
+      side_ok m N D r /\
+      (f = AddOne -> N < r * D) /\ (f = SubOne -> r * D < N) /\
+      Z.abs r <= B ^ (p + 1) /\
+      ~ (exists t j, Z.abs t < B ^ p /\ ((0 <= j /\ N = t * B ^ j * D) \/ (j < 0 /\ N * B ^ (- j) = t * D)))
+  end.
+Proof. exact rounded_quot_contract. Qed.
+Print Assumptions C03_rounded_quot_is_the_contract.
+
+(** Context::div (pre-shrinking of an over-long dividend, any digit estimates) and Context::inv *)
+Theorem C03_ctx_div_inv : forall B, 2 <= B -> forall digits_ub digits_lb p m s1 e1 s2 e2,
+  (dlen B s1 <= p + dlen B s2 ->
+     ctx_div B digits_ub digits_lb p m s1 e1 s2 e2 = repr_div B p m s1 e1 s2 e2) /\
+  (1 <= p -> s2 <> 0 -> dlen B s1 <= p ->
+     let k := repr_div_shift B p s1 s2 in
+     0 <= k /\ exists a, ctx_div B digits_ub digits_lb p m s1 e1 s2 e2 = Ok a /\ approx_exp a = e1 - e2 - k /\
+       rounded_quot B p m (Z.sgn s2 * (s1 * B ^ k)) (Z.abs s2) a) /\
+  (1 <= p -> s2 <> 0 ->
+     let k := repr_div_shift B p 1 s2 in
+     0 <= k /\ exists a, ctx_inv B p m s2 e2 = Ok a /\ approx_exp a = 0 - e2 - k /\
+       rounded_quot B p m (Z.sgn s2 * (1 * B ^ k)) (Z.abs s2) a).
+Proof.
+  intros B HB ub lb p m s1 e1 s2 e2. split; [apply ctx_div_eq; exact HB|].
+  split; [apply ctx_div_rounded; exact HB | apply ctx_inv_rounded; exact HB].
+Qed.
+Print Assumptions C03_ctx_div_inv.
+
+Theorem C03_div_inv_panics : forall B digits_ub digits_lb p m s1 e1 s2 e2,
+  (p = 0 -> ctx_div B digits_ub digits_lb p m s1 e1 s2 e2 = Panic UnlimitedPrecision) /\
+  (1 <= p -> ctx_div B digits_ub digits_lb p m s1 e1 0 e2 = Panic DivideBy0) /\
+  (p = 0 -> ctx_inv B p m s1 e1 = Panic UnlimitedPrecision) /\
+  (1 <= p -> ctx_inv B p m 0 e1 = Panic DivideBy0).
+Proof. exact ctx_div_panics. Qed.
+Print Assumptions C03_div_inv_panics.
+
+(** the FBig operator bodies of * and / in every ownership form, Context::max of the operand precisions *)
+Theorem C03_mul_div_operator_forms : forall B, 2 <= B -> forall digits_ub digits_lb p1 p2 m s1 e1 s2 e2,
+  let p := ctx_max p1 p2 in
+  (1 <= p -> dlen B s1 <= p -> dlen B s2 <= p ->
+     mul_val_val B p1 p2 m s1 e1 s2 e2 = approx_val (ctx_mul B p m s1 e1 s2 e2) /\
+     mul_val_ref B p1 p2 m s1 e1 s2 e2 = approx_val (ctx_mul B p m s1 e1 s2 e2) /\
+     mul_ref_val B p1 p2 m s1 e1 s2 e2 = approx_val (ctx_mul B p m s1 e1 s2 e2) /\
+     mul_ref_ref B p1 p2 m s1 e1 s2 e2 = approx_val (ctx_mul B p m s1 e1 s2 e2)) /\
+  (dlen B s1 <= p + dlen B s2 ->
+     div_val_val B p1 p2 m s1 e1 s2 e2 = map_val (ctx_div B digits_ub digits_lb p m s1 e1 s2 e2) /\
+     div_val_ref B p1 p2 m s1 e1 s2 e2 = map_val (ctx_div B digits_ub digits_lb p m s1 e1 s2 e2) /\
+     div_ref_val B p1 p2 m s1 e1 s2 e2 = map_val (ctx_div B digits_ub digits_lb p m s1 e1 s2 e2) /\
+     div_ref_ref B p1 p2 m s1 e1 s2 e2 = map_val (ctx_div B digits_ub digits_lb p m s1 e1 s2 e2)) /\
+  p = Z.max p1 p2.
+Proof.
+  intros B HB ub lb p1 p2 m s1 e1 s2 e2 p. split; [apply fbig_mul_forms; exact HB|].
+  split; [apply fbig_div_forms; exact HB | apply ctx_max_spec].
+Qed.
+Print Assumptions C03_mul_div_operator_forms.
+
+(** primitive / big-integer operands are converted by FBig::from (precision = digit count, at least 1) first *)
+Theorem C03_primitive_operand_forms : forall B, 2 <= B -> forall digits_ub digits_lb p m s e n, 1 <= p -> dlen B s <= p ->
+  let '(sn, en) := prim_repr B n in
+  let pm := ctx_max p (prim_prec B n) in
+  pm = Z.max p (prim_prec B n) /\ ctx_max (prim_prec B n) p = pm /\
+  mul_float_prim B p m s e n = approx_val (ctx_mul B pm m s e sn en) /\
+  mul_prim_float B p m n s e = approx_val (ctx_mul B pm m sn en s e) /\
+  div_float_prim B p m s e n = map_val (ctx_div B digits_ub digits_lb pm m s e sn en) /\
+  div_prim_float B p m n s e = map_val (ctx_div B digits_ub digits_lb pm m sn en s e).
+Proof. exact prim_forms. Qed.
+Print Assumptions C03_primitive_operand_forms.
+
+Example C03_div_nonvacuous :
+  ctx_div_x 10 3 MHalfEven 1 0 3 0 = Ok (AInexact 333 (-3) NoOp) /\
+  ctx_div_x1 10 3 MHalfEven 1 0 3 0 = Ok (AInexact 333 (-3) NoOp) /\
+  ctx_inv 10 2 MUp 7 0 = Ok (AInexact 15 (-2) AddOne) /\
+  ctx_div_x 10 3 MDown 1 0 8 0 = Ok (AExact 125 (-3)) /\
+  div_float_prim 10 2 MHalfAway 1 0 300 = Ok (333, -5) /\
+  mul_prim_float 10 2 MHalfAway 1234 5 0 = (617, 1) /\
+  mul_ref_val 10 1 2 MZero 9 0 99 0 = (89, 1) /\
+  round_fract_sharp 10 MHalfEven 13 500 3 = AddOne /\ dlen 10 1 <= 3.
+Proof. vm_compute. repeat split; discriminate. Qed.
+
+From Dashu Require Import Float.ContractProof.
+
+(** soundness of the executable checker that judges every case (rational exact values): the exponent of x ... *)
+Theorem C03_rat_exp : forall B, 2 <= B -> forall N D, N <> 0 -> 0 < D ->
+  let ex := x_exp B (XRat N D) in
+  (bpow B ex <= Rabs (xrat N D) < bpow B (ex + 1))%R.
+Proof. exact rat_exp_spec. Qed.
+Print Assumptions C03_rat_exp.
+
+Theorem C03_cmp_kx : forall B, 2 <= B -> forall k N D a j, 0 < D ->
+  match cmp_kx B k (XRat N D) a j with
+  | Eq => fval B a j = (IZR k * xrat N D)%R
+  | Lt => (fval B a j < IZR k * xrat N D)%R
+  | Gt => (fval B a j > IZR k * xrat N D)%R
+  end.
+Proof. exact cmp_kx_spec. Qed.
+Print Assumptions C03_cmp_kx.
+
+(** ... and the verdict: [true] implies every clause of the documented contract for r = s * B^e and x = N / D,
+    with one ulp u = B^(ex - p + 1) *)
+Theorem C03_check_contract_sound : forall B, 2 <= B -> forall p m N D s e f, 1 <= p -> 0 < D ->
+  check_contract B p m (XRat N D) s e f = true ->
+  let r := fval B s e in let x := xrat N D in let u := bpow B (x_exp B (XRat N D) - p + 1) in
+  dlen B s <= p + 1 /\
+  ((r = x /\ (f = FExact \/ f = FUnknown)) \/
+   (r <> x /\ x <> 0%R /\ f <> FExact /\
+    (Rabs (r - x) < u)%R /\
+    (is_half_mode m = true -> 2 * Rabs (r - x) <= u)%R /\
+    match m with
+    | MDown => (r < x)%R
+    | MUp => (x < r)%R
+    | MZero => (0 < x -> r < x)%R /\ (x < 0 -> x < r)%R
+    | MAway => (0 < x -> x < r)%R /\ (x < 0 -> r < x)%R
+    | MHalfEven | MHalfAway => True
+    end /\
+    (f = FInexact AddOne -> x < r)%R /\ (f = FInexact SubOne -> r < x)%R /\
+    ~ (exists t, x = (IZR t * u)%R))).
+Proof. exact check_contract_sound. Qed.
+Print Assumptions C03_check_contract_sound.
+
+Theorem C03_check_contract_magnitude : forall B, 2 <= B -> forall p m N D s e f, 1 <= p -> 0 < D ->
+  check_contract B p m (XRat N D) s e f = true ->
+  (m = MZero -> Rabs (fval B s e) <= Rabs (xrat N D))%R /\ (m = MAway -> Rabs (xrat N D) <= Rabs (fval B s e))%R.
+Proof. exact check_contract_magnitude. Qed.
+Print Assumptions C03_check_contract_magnitude.
+
+Example C03_contract_nonvacuous :
+  check_contract 10 3 MHalfEven (XRat 1 3) 333 (-3) (FInexact NoOp) = true /\
+  check_contract 10 3 MHalfEven (XRat 1 3) 334 (-3) (FInexact AddOne) = false /\
+  check_contract 10 3 MUp (XRat 1 3) 334 (-3) (FInexact AddOne) = true /\
+  check_contract 10 3 MZero (XRat (-2) 3) (-666) (-3) (FInexact AddOne) = true /\
+  check_contract 10 3 MZero (XRat 1 8) 125 (-3) FExact = true /\
+  check_contract 10 3 MZero (XRat 1 8) 12 (-2) (FInexact NoOp) = false.
+Proof. vm_compute. repeat split. Qed.
